@@ -15,6 +15,7 @@ from __future__ import annotations
 from typing import Any
 
 from vlib import core, sers, streamdrive as sd
+from vlib import jraw  # ---- raw JSON framer ----
 
 from easynetwork.exceptions import StreamProtocolParseError
 from easynetwork.lowlevel._stream import BufferedStreamDataConsumer, StreamDataConsumer
@@ -23,7 +24,8 @@ ID = "C07"
 CLAIMED = True
 TITLE = "Receive buffering is bounded by the configured limit"
 REQUIRED_THEOREMS = ["C07_sep_copy_bound", "C07_sep_copy_overrun_raises", "C07_sep_copy_no_false_reject",
-                     "C07_sep_buffered_bound", "C07_sep_buffered_overrun_raises", "C07_sep_buffered_no_false_reject"]
+                     "C07_sep_buffered_bound", "C07_sep_buffered_overrun_raises", "C07_sep_buffered_no_false_reject",
+                     "C07_jraw_bound", "C07_jraw_no_false_reject"]  # ---- raw JSON framer ----
 LEVEL_TEXT = (
     "Machine-checked proof (Lean 4) that after every read the modelled copying consumer retains at most limit+|sep|-1 bytes, "
     "that unterminated data of limit+|sep| bytes yields a size error, and that a frame with payload <= limit is never rejected "
@@ -32,7 +34,7 @@ LEVEL_TEXT = (
 )
 LEVEL_NOTE = (
     "Trusted: Lean kernel + standard axioms; models tied to code by sampled correspondence. Python object overhead is not "
-    "'held' in the property's sense. Raw-JSON and file-based framers are judged by the oracle only (no Lean model yet)."
+    "'held' in the property's sense. Raw JSON: model JRaw + theorems C07_jraw_*; file-based framers are judged by the oracle only."
 )
 TECHNIQUE = "Lean 4 theorems (invariant of the suspended framer via refinement) + differential correspondence + bound oracle"
 TRUSTED_BASE = [
@@ -50,6 +52,8 @@ _aux: dict[str, Any] = {}
 def _payload(spec: dict, n: int) -> bytes:
     k = sers.recv_spec(spec)["k"]
     if k == "json":
+        if spec.get("shape"):  # ---- raw JSON framer ----
+            return jraw.shaped(spec["shape"], n)
         if n < 2:
             return b"7" * max(n, 1)
         return b'"' + b"a" * (n - 2) + b'"'
@@ -94,6 +98,8 @@ def _stream(case: dict) -> bytes:
     if not case["terminated"] and case.get("pattern") and sep is not None:
         return _unterminated(case)
     if not case["terminated"]:
+        if k == "json" and sep is None and spec.get("shape"):  # ---- raw JSON framer ----
+            return jraw.unterminated(spec["shape"], n)
         if k == "json" and sep is None:
             return b'"' + b"a" * max(n - 1, 0)        # a string that never closes
         if k == "filetoy":
@@ -187,7 +193,8 @@ def _safe(case: dict, maxread: int) -> bool:
             return n <= lim
         return n + len(sep) < lim
     if k == "json":
-        return len(_payload(spec, n)) + 1 <= lim
+        # ---- raw JSON framer ---- exact threshold (DESIGN.md C07 table): |document| <= limit
+        return len(_payload(spec, n)) <= lim
     if k == "filetoy":
         return (n + 1) + maxread <= lim
     return True
@@ -234,6 +241,10 @@ def oracle(case: dict, real: list[str]) -> str | None:
             return f"frame of payload {case['n']} safely under limit {lim} was rejected: {items[:3]}"
     first_payload = _payload(spec, case["n"])
     whole = [ln for ln in items if ln.startswith("pkt ")]
+    # ---- raw JSON framer ---- exact: a document longer than the limit is never delivered (items[0] is what was made of it)
+    if k == "json" and sep == b"" and len(first_payload) > lim and items and items[0].startswith("pkt "):
+        return f"document of {len(first_payload)} bytes > limit {lim} was delivered: {items[0]}"
+    # ---- end raw JSON framer ----
     if case["n"] > lim + len(sep) + maxread and k != "filetoy":
         # the oversized frame must not come out whole
         try:
@@ -281,7 +292,8 @@ def _gen_spec(rng):
     if k == "jsonl":
         return {"k": "json", "use_lines": True, "limit": lim}
     if k == "jsonraw":
-        return {"k": "json", "use_lines": False, "limit": lim}
+        # ---- raw JSON framer ---- (shape of the document / of the unterminated data)
+        return {"k": "json", "use_lines": False, "limit": lim, "shape": rng.choice(jraw.SHAPES + ["", ""])}
     return {"k": "filetoy", "limit": max(lim, 8)}
 
 
@@ -322,6 +334,17 @@ def generate(rng, tier: str, boost: int):
         yield {"spec": spec, "path": path, "n": nn, "terminated": terminated, "cuts": cuts,
                "hint": rng.choice([1, 2, 3, 8, 64, 16384]),
                "pattern": 0 if terminated else rng.choice([0, 0, 2, 3, 5, 7])}
+    # ---- raw JSON framer ---- document lengths swept across the limit band x one cut at every position / drip feed
+    for _ in range((1200 if tier == "quick" else 30000) * boost):
+        lim = rng.choice([4, 6, 8, 10, 12, 16, 24])
+        spec = {"k": "json", "use_lines": False, "limit": lim, "shape": rng.choice(jraw.SHAPES)}
+        terminated = rng.random() < 0.7
+        nn = rng.choice([lim - 2, lim - 1, lim, lim, lim + 1, lim + 2, rng.randint(1, lim + 8)]) if terminated else rng.randint(lim, lim * 3 + 10)
+        nn = max(nn, 1)
+        r = rng.random()
+        cuts = [1] if r < 0.3 else [rng.randint(1, nn + 3), 100] if r < 0.7 else [rng.choice([1, 2, 3, lim - 1, lim, lim + 1]) for _ in range(rng.randint(1, 6))]
+        yield {"spec": spec, "path": "copy", "n": nn, "terminated": terminated, "cuts": cuts, "hint": 1, "pattern": 0}
+    # ---- end raw JSON framer ----
     if tier == "thorough":
         for lim in range(4, 17):
             for sephex in ("0a", "0d0a", "616162"):
@@ -334,3 +357,9 @@ def generate(rng, tier: str, boost: int):
 
 def after_batch() -> None:
     _aux.clear()
+
+
+# ---- raw JSON framer ----
+def extra_coverage(stats) -> dict:
+    return {"model_runs_by_framer": dict(sorted(sers.MODEL_RUNS.items()))}
+# ---- end raw JSON framer ----
